@@ -61,7 +61,13 @@ def gen_history(rng, tier):
             ops.append('commitnth %d %d %d' % (c, rng.randint(0, 5), rng.random() < 0.6))
         elif x < 0.60:
             ops.append('replace %d %d ?' % (p, rng.randint(0, 2)))
-            if rng.random() < 0.25:
+            y = rng.random()
+            if y < 0.25:
+                ops.append('replace %d %d ?' % (p, rng.randint(0, 2)))
+            elif y < 0.40:
+                # retry after a spare was registered (the first call may have failed for lack of resources)
+                q = 60 + rng.randint(0, 5)
+                ops.append('addproxy %d %d %s' % (q, 10 + rng.randint(0, 5), str(q - 1) if ordered else '-'))
                 ops.append('replace %d %d ?' % (p, rng.randint(0, 2)))
         elif x < 0.65:
             ops.append('balance %d' % c)
@@ -122,6 +128,10 @@ def scenario_histories():
              + ' ; replace 7 0 ? ; replace 8 0 ? ; replace 1 0 ? ; replace 2 0 ? ; commitnth 1 0 1 ; commitnth 1 0 1',
         base + ' ; addcluster 1 4 1 ? ; addfail 1 1 0 ; addfail 1 1 0 ; addfail 1 2 1000 ; getfail 2000 2 ; getfail 1000 2 ; getfail 1000 1 ; addproxy 1 10 - ; getfail 9000 1',
         base + ' ; addcluster 1 8 1 ? ; recover 100 ; forcebump 50 ; forcebump 500 ; restore 3 ; restore 14 ; recover 0',
+        # failover without a spare, then a spare is registered and the failover is retried
+        'H 0 ; addproxy 1 10 - ; addproxy 2 11 - ; addcluster 1 4 1 ? ; replace 1 0 ? ; addproxy 3 12 - ; replace 1 0 ? ; replace 2 1 ? ; addproxy 4 10 - ; replace 2 2 ?',
+        # scale-in freeing two chunks; an earlier source chunk drains first and a commit asks to clear free nodes mid-migration
+        base + ' ; addcluster 1 12 1 ? ; scaledown 1 4 ; commitnth 1 0 1 ; commitnth 1 0 1 ; delfree 1 ; commitnth 1 0 1 ; commitnth 1 0 1 ; delfree 1',
         # reports arriving for unregistered addresses (removed / never registered), then registration and a query
         base + ' ; rmproxy 12 ; addfail 12 1 0 ; addfail 12 2 0 ; addproxy 12 10 - ; getfail 9000 2 ; addfail 50 1 0 ; addfail 50 2 1000 ; getfail 9000 1 ; addproxy 50 11 - ; getfail 9000 2',
         'H 1 ; ' + ' ; '.join('addproxy %d %d %d' % (i, 10 + (i % 2), i - 1) for i in range(1, 9)) + ' ; addcluster 1 4 2 ? ; addnodes 1 4 ? ; migrate 1 ; replace 1 0 ? ; commitnth 1 0 1 ; commitnth 1 0 1',
@@ -182,7 +192,7 @@ def analyse(chk, prop, results):
             if mon != 'm=ok':
                 for f in mon[2:].split('|'):
                     lab = f.split(':')[0]
-                    if lab in labels:
+                    if lab in labels or lab == 'ANY':   # a panicking operation or view fails every broker property
                         stats['monitor_failures'] += 1
                         known = None
                         if lab == 'C12repl': known = 'replacement-on-partner-host'
